@@ -3,6 +3,7 @@ import MgpuProofs.C14Once
 import MgpuProofs.C14Live
 import MgpuProofs.C14Progress
 import MgpuProofs.C14Truth
+import MgpuProofs.C14Next
 /-! # C14 — barriers, wait counts and wavefront termination order execution correctly
 
 Statements are about `C14.run c s ops`: the abstract compute-unit state after an **arbitrary**
@@ -346,6 +347,33 @@ theorem barrier_live_waits_only_for_movers (c : Cfg) (hA : c.fixA = true) (hB : 
     · have := (hWu.1 h).2 ho; omega
 
 example : ∃ v ∈ (run Cfg.cur demo (demoOps.take 9)).wfs, v.state = .atBarrier := by decide
+
+/-- **barrier_live (temporal form).** In any state reached by a legal schedule: if every unfinished
+    wavefront of group `g` has reached the barrier — it is parked, or its `s_barrier` has been issued
+    and is in `internalExecuting` — then after the next evaluation round of `EvaluateInternalInst`
+    every wavefront of the group is Completed or Ready, released from every barrier it arrived at
+    (`bar = arr`): they all proceed, whatever else is in `internalExecuting` (other groups, a full
+    barrier buffer, a full port). -/
+theorem barrier_live_next_round (c : Cfg) (hA : c.fixA = true) (hB : c.fixB = true) (s : State) (ops : List Op)
+    (h0 : Init s) (hl : legalRun c s ops = true) (g : Nat)
+    (hreach : ∀ v ∈ (run c s ops).wfs, v.wg = g → v.state = .completed ∨ v.state = .atBarrier ∨
+      (v.state = .running ∧ v.op = 10 ∧ v.id ∈ (run c s ops).exec)) :
+    ∀ v' ∈ (run c s (ops ++ [.eval])).wfs, v'.wg = g →
+      v'.state = .completed ∨ (v'.state = .ready ∧ v'.bar = v'.arr) := by
+  have hrun : run c s (ops ++ [.eval]) = (evalInternal c (run c s ops)).1 := by
+    unfold run; rw [List.foldl_append]; rfl
+  rw [hrun]
+  exact evalInternal_releases hA hB (sched_inv c hA hB s ops h0 hl)
+    (run_NS hA hB ops (Init_Inv h0) (Init_NS h0) hl) hreach
+
+/-- non-vacuity: in the demo, after 12 events wavefront 0 is parked, wavefront 2 has ended and
+    wavefront 1 has just issued its `s_barrier`; the next round releases 0 and 1 -/
+example : (run Cfg.cur demo (demoOps.take 12)).wfs.map (fun w => (w.state, w.op)) =
+      [(.atBarrier, 10), (.running, 10), (.completed, 1), (.ready, 99), (.ready, 99)] ∧
+    (run Cfg.cur demo (demoOps.take 12)).exec = [1] ∧
+    (run Cfg.cur demo (demoOps.take 12 ++ [.eval])).wfs.map (fun w => (w.state, w.bar, w.arr)) =
+      [(.ready, 1, 1), (.ready, 1, 1), (.completed, 0, 0), (.ready, 0, 0), (.ready, 0, 0)] := by decide
+
 
 /-! ## the completion message: exactly once -/
 
